@@ -542,6 +542,24 @@ def r8(cx):
                 h = F.hir.get(hroot)
             opens = [c for c in H.walk(h['body']) if c.get('k') == 'mcall' and c.get('name') == 'open'] if h is not None else []
             has_cloexec = bool(opens) and all('CloseOnExec' in _names_in(c, 'yash_env::system::file_system::OpenFlag::') for c in opens)
+            if not has_cloexec and len(t['a']) >= 4:
+                # the flags may be computed into a named local first: backward slice of the flags operand on the MIR
+                want = {(Q.operand_place(t['a'][3]) or {}).get('l')} - {None}
+                seen = set()
+                while want:
+                    l = want.pop()
+                    if l in seen:
+                        continue
+                    seen.add(l)
+                    for blk2, j2, st2 in b.stmts():
+                        if st2['k'] == 'assign' and st2['lhs']['l'] == l:
+                            rv2 = st2['rv']
+                            if rv2['k'] == 'agg' and rv2.get('adt', '').endswith('file_system::OpenFlag') and rv2.get('variant') == 'CloseOnExec':
+                                has_cloexec = True
+                            want |= {p2['l'] for p2 in Q.rvalue_places(rv2)}
+                    for blk2, t2 in b.calls():
+                        if t2['dest']['l'] == l:
+                            want |= {(Q.operand_place(a2) or {}).get('l') for a2 in t2['a']} - {None}
             if not has_cloexec:
                 cx.violation(b.root, 'internal-open-without-cloexec', 'a shell-internal descriptor is opened without OpenFlag::CloseOnExec '
                              '(it would be inherited by every executed program)', loc=b.loc(t))
